@@ -48,8 +48,12 @@ def instances(tier, seed):
                         })
     for K in (1, 2):
         for new in ("str", "fmt1"):
-            out.append({"name": "native-K%d-%s" % (K, new), "fn": "splice_native", "timeout": 90 if tier == "quick" else 400,
+            out.append({"name": "native-K%d-%s" % (K, new), "fn": "splice_native", "timeout": 160 if tier == "quick" else 400, "cost": 9,
                         "params": {"K": K, "new": new, "L": 2 if tier == "quick" else 3}})
+    # three runs where the first and the last have the same formatting (and may have the same text): equal runs
+    for cut in ("in0", "in1", "in2"):
+        out.append({"name": "native-K3-twin-%s" % cut, "fn": "splice_native", "timeout": 120 if tier == "quick" else 400, "cost": 8,
+                    "params": {"K": 3, "new": "str", "L": 2, "twin": True, "cut": cut}})
     return out
 
 
@@ -145,23 +149,37 @@ def splice(n0: int, n1: int, n2: int, n3: int, n4: int, n5: int, m0: int, m1: in
 NAT_ATTS = [{"fg": 31}, {"bold": True}]
 
 
-def _nat_build(t0, t1, nw):
+def _nat_build(t0, t1, nw, t2=""):
     from curtsies.formatstring import FmtStr, Chunk
-    f = FmtStr(Chunk(t0, NAT_ATTS[0]), Chunk(t1, NAT_ATTS[1])) if P["K"] == 2 else FmtStr(Chunk(t0, NAT_ATTS[0]))
+    if P["K"] == 3:
+        f = FmtStr(Chunk(t0, NAT_ATTS[0]), Chunk(t1, NAT_ATTS[1]), Chunk(t2, NAT_ATTS[0]))
+    else:
+        f = FmtStr(Chunk(t0, NAT_ATTS[0]), Chunk(t1, NAT_ATTS[1])) if P["K"] == 2 else FmtStr(Chunk(t0, NAT_ATTS[0]))
     kind = P["new"]
     new = nw if kind == "str" else FmtStr(Chunk(nw, NEW_ATTS[0]))
     return f, new
 
 
-def splice_native(t0: str, t1: str, nw: str, start: int, end: int) -> bool:
+def _twin_pre(t0, t1, t2, nw, start, end):
+    if not P.get("twin"):
+        return len(t2) == 0
+    if not (len(t0) == 2 and len(t1) <= 1 and len(t2) == 2 and len(nw) == 1):
+        return False
+    lo = {"in0": 0, "in1": 2, "in2": 2 + len(t1)}[P["cut"]]
+    hi = {"in0": 2, "in1": 2 + len(t1), "in2": 4 + len(t1)}[P["cut"]]
+    return lo <= end <= hi
+
+
+def splice_native(t0: str, t1: str, nw: str, start: int, end: int, t2: str) -> bool:
     """
-    pre: len(t0) <= P["L"] and len(t1) <= P["L"] and len(nw) <= P["L"] and (P["K"] == 2 or len(t1) == 0)
-    pre: 0 <= start <= end <= len(t0) + len(t1) + 2
-    pre: chr(27) not in t0 + t1 + nw and chr(0x9b) not in t0 + t1 + nw
+    pre: len(t0) <= P["L"] and len(t1) <= P["L"] and len(nw) <= P["L"] and (P["K"] >= 2 or len(t1) == 0)
+    pre: _twin_pre(t0, t1, t2, nw, start, end)
+    pre: 0 <= start <= end <= len(t0) + len(t1) + len(t2) + 2
+    pre: chr(27) not in t0 + t1 + t2 + nw and chr(0x9b) not in t0 + t1 + t2 + nw
     post: _
     """
     from curtsies.formatstring import FmtStr, Chunk
-    f, new = _nat_build(t0, t1, nw)
+    f, new = _nat_build(t0, t1, nw, t2)
     before = H.sym_cells(f)
     r = f.splice(new, start, end)
     newc = H.sym_cells(new if isinstance(new, FmtStr) else FmtStr(Chunk(new)))
@@ -175,8 +193,9 @@ def splice_native(t0: str, t1: str, nw: str, start: int, end: int) -> bool:
 def _concrete_native(params, args):
     from chx.common import cells, fmt_cells
     from curtsies.formatstring import FmtStr
-    t0, t1, nw, start, end = args
-    f, new = _nat_build(t0, t1, nw)
+    t0, t1, nw, start, end = args[:5]
+    t2 = args[5] if len(args) > 5 else ""
+    f, new = _nat_build(t0, t1, nw, t2)
     before = cells(f)
     try:
         r = f.splice(new, start, end)
